@@ -13,9 +13,9 @@ use std::collections::{BTreeMap, HashSet, VecDeque};
 use std::panic::{AssertUnwindSafe, catch_unwind};
 use std::path::Path;
 
-pub const KINDS: [&str; 12] = [
+pub const KINDS: [&str; 15] = [
     "fn-added", "fn-removed", "sig-changed", "struct-field-added", "struct-field-retyped", "enum-variant-added", "enum-payload-changed",
-    "trait-method-added", "impl-added", "impl-removed", "type-renamed", "generic-param-added",
+    "trait-method-added", "impl-added", "impl-removed", "type-renamed", "generic-param-added", "bound-added", "bound-removed", "bound-changed",
 ];
 pub const GRAPHS: [&str; 5] = ["chain", "diamond", "fan", "triangle", "triangle-rev"];
 
@@ -79,6 +79,21 @@ fn lib_source(l: &str, deps: &[&str], variant: u8, kind: &str) -> String {
         } else {
             s.push_str(&format!("fn h{}() -> int32 {{ 0 }}\n", l));
         }
+    }
+    // a second trait and two generic functions, one bounded and one not: the bounds are part of what
+    // a dependent is compiled against
+    s.push_str(&format!("trait U{} {{ fn u(Self) -> int32; }}\nimpl U{} for int32 {{ fn u(self: int32) -> int32 {{ self + 1 }} }}\n", l, l));
+    if iface && kind == "bound-removed" {
+        s.push_str(&format!("fn q{}[T](x: T) -> int32 {{ 0 }}\n", l));
+    } else if iface && kind == "bound-changed" {
+        s.push_str(&format!("fn q{}[T: U{}](x: T) -> int32 {{ U{}::u(x) }}\n", l, l, l));
+    } else {
+        s.push_str(&format!("fn q{}[T: T{}](x: T) -> int32 {{ T{}::t(x) }}\n", l, l, l));
+    }
+    if iface && kind == "bound-added" {
+        s.push_str(&format!("fn r{}[T: T{}](x: T) -> int32 {{ T{}::t(x) }}\n", l, l, l));
+    } else {
+        s.push_str(&format!("fn r{}[T](x: T) -> int32 {{ 0 }}\n", l));
     }
     let mut body = format!("x + {}", k);
     for d in deps {
@@ -217,7 +232,7 @@ impl Family for Staleness {
         900
     }
     fn rule(&self) -> &'static str {
-        "graphs {chain Main->A->B, diamond Main->{A,B}->C, fan Main->{A,B}, triangle Main->{A,B} with B->A, and with A->B} x 12 kinds of interface-changing edit (fn added/removed/signature changed, struct field added/retyped, enum variant added/payload changed, trait method added, impl added/removed, type renamed, generic parameter added); each library has source variants {v0, body-only edit, interface-changing edit}; actions = edit(pkg,variant), check(pkg), build(pkg), tamper(pkg) (overwrite the dependency hashes at the top of a stale .core file with the current ones, as a user pasting the hash from the link error would), link; breadth-first search over all histories to depth 5 (quick) / 7 (thorough) with states deduplicated by (source variants, artifact file contents, the model's versions); every transition runs the real functions on real files. Reference model: symbolic interface versions (pkg, interface variant, versions of deps at build time). Oracle in every state: the dependency hashes a built/checked package records are those of the interface files it was built against; build/check succeed iff the model says the dependencies' interfaces exist; link succeeds iff every core exists and every recorded dependency version equals the version embedded in that dependency's core; a successful link prints the value denoted by the sources that were built; body-only edits leave the interface bytes unchanged and interface edits change the hash. non-trivial = states in which some package is stale; distinct = distinct states"
+        "graphs {chain Main->A->B, diamond Main->{A,B}->C, fan Main->{A,B}, triangle Main->{A,B} with B->A, and with A->B} x 15 kinds of interface-changing edit (fn added/removed/signature changed, struct field added/retyped, enum variant added/payload changed, trait method added, impl added/removed, type renamed, generic parameter added, trait bound of a generic function added/removed/changed); each library has source variants {v0, body-only edit, interface-changing edit}; actions = edit(pkg,variant), check(pkg), build(pkg), tamper(pkg) (overwrite the dependency hashes at the top of a stale .core file with the current ones, as a user pasting the hash from the link error would), link; breadth-first search over all histories to depth 5 (quick) / 7 (thorough) with states deduplicated by (source variants, artifact file contents, the model's versions); every transition runs the real functions on real files. Reference model: symbolic interface versions (pkg, interface variant, versions of deps at build time). Oracle in every state: the dependency hashes a built/checked package records are those of the interface files it was built against; build/check succeed iff the model says the dependencies' interfaces exist; link succeeds iff every core exists and every recorded dependency version equals the version embedded in that dependency's core; a successful link prints the value denoted by the sources that were built; body-only edits leave the interface bytes unchanged and interface edits change the hash. non-trivial = states in which some package is stale; distinct = distinct states"
     }
     fn cases(&self, tier: Tier) -> Box<dyn Iterator<Item = Value> + '_> {
         let mut v = Vec::new();
